@@ -41,6 +41,7 @@ CONSTANTS Ptrs,      \* pointer registers; "p" is one of them
           PvInState, \* TRUE: the pointer assignment is part of the state (generator configs)
           Gen        \* TRUE: print complete behaviours (generator configs)
 
+DeltasTiny  == -2..2
 DeltasSmall == -3..3      \* cfg files cannot contain negative numbers
 DeltasMid   == -6..6
 DeltasWide  == -9..9
